@@ -1191,6 +1191,8 @@ class ClassVal:
 
 _BINOPS = {ast.Add: _op.add, ast.Sub: _op.sub, ast.Mult: _op.mul, ast.Div: _op.truediv, ast.FloorDiv: _op.floordiv, ast.Mod: _op.mod,
            ast.Pow: _op.pow, ast.BitOr: _op.or_, ast.BitAnd: _op.and_, ast.BitXor: _op.xor, ast.LShift: _op.lshift, ast.RShift: _op.rshift}
+_IBINOPS = {ast.Add: _op.iadd, ast.Sub: _op.isub, ast.Mult: _op.imul, ast.Div: _op.itruediv, ast.FloorDiv: _op.ifloordiv, ast.Mod: _op.imod,
+            ast.Pow: _op.ipow, ast.BitOr: _op.ior, ast.BitAnd: _op.iand, ast.BitXor: _op.ixor, ast.LShift: _op.ilshift, ast.RShift: _op.irshift}
 _CMPOPS = {ast.Eq: _op.eq, ast.NotEq: _op.ne, ast.Lt: _op.lt, ast.LtE: _op.le, ast.Gt: _op.gt, ast.GtE: _op.ge,
            ast.Is: _op.is_, ast.IsNot: _op.is_not, ast.In: lambda a, b: a in b, ast.NotIn: lambda a, b: a not in b}
 _SAFE_BUILTIN_NAMES = ("len str repr ascii format int float bool list dict tuple set frozenset range enumerate zip min max sum sorted "
@@ -1221,6 +1223,7 @@ class Interp:
         self.log: List[tuple] = []
         self._yields: List[list] = []
         self._lazy_active: set = set()
+        self._pending_native: List[ast.ClassDef] = []
 
     # ---- setup ------------------------------------------------------------------------------------------------
     STDLIB_OK = ("functools", "itertools", "contextlib", "collections", "collections.abc", "string", "json", "uuid", "typing", "operator", "math", "abc", "enum", "dataclasses")
@@ -1268,6 +1271,7 @@ class Interp:
                 self.globals[n.name] = Func(self, n, [], n.name)
             elif isinstance(n, ast.ClassDef) and (only is None or n.name in only):
                 self.globals[n.name] = ClassVal(self, n, [])
+                self._pending_native.append(n)
             elif isinstance(n, (ast.Assign, ast.AnnAssign)) and only is None:
                 # module-level constants (pure literals / arithmetic on literals only)
                 from sa.astx import NotConst, const_eval
@@ -1304,12 +1308,56 @@ class Interp:
         if self.budget < 0:
             raise Nonterminating()
 
+    def _materialise(self, node):
+        """An interpreted class whose base is a native type (json.JSONEncoder, typing.NamedTuple, Exception, ...) becomes a real Python
+        class whose methods run in the interpreter, so that stdlib code can instantiate and drive it."""
+        import collections
+        import typing
+        bases = []
+        for b in node.bases:
+            try:
+                v = self.ev(b, []) if not isinstance(b, ast.Subscript) else None
+            except AnalysisError:
+                v = None
+            bases.append(v)
+        if any(v is typing.NamedTuple for v in bases):
+            fields, defaults = [], []
+            for st in node.body:
+                if isinstance(st, ast.AnnAssign) and isinstance(st.target, ast.Name):
+                    fields.append(st.target.id)
+                    if st.value is not None:
+                        defaults.append(self.ev(st.value, []))
+            base = collections.namedtuple(node.name, fields, defaults=defaults or None)
+            natives = (base,)
+        else:
+            import abc
+            natives = tuple(v for v in bases if isinstance(v, type))
+            if all(v in (object, typing.Protocol, typing.Generic, abc.ABC) for v in natives):
+                return None   # structural typing / abstract markers: the interpreted ClassVal is enough
+            if not natives or len(natives) != len([v for v in bases if v is not None]) or any(isinstance(v, ClassVal) for v in bases):
+                return None
+        ns = {"_interp_mutable": True, "__module__": "interpreted"}
+        for st in node.body:
+            if isinstance(st, (ast.FunctionDef, ast.AsyncFunctionDef)):
+                fn = Func(self, st, [], f"{node.name}.{st.name}")
+                ns[st.name] = (lambda fn: (lambda self_, *a, **k: fn.interp.call_func(fn, [self_] + list(a), dict(k))))(fn)
+            elif isinstance(st, ast.Assign) and len(st.targets) == 1 and isinstance(st.targets[0], ast.Name) and isinstance(st.value, ast.Constant):
+                ns[st.targets[0].id] = st.value.value
+        return type(node.name, natives, ns)
+
     def lookup(self, name, scopes):
         for s in reversed(scopes):
             if name in s:
                 return s[name]
         if name in self.globals:
-            return self.globals[name]
+            v = self.globals[name]
+            if isinstance(v, ClassVal) and v.node in self._pending_native and v.node.bases:
+                self._pending_native.remove(v.node)
+                real = self._materialise(v.node)
+                if real is not None:
+                    self.globals[name] = real
+                    return real
+            return v
         found, v = self._lazy_global(name)
         if found:
             self.globals[name] = v
@@ -1396,7 +1444,7 @@ class Interp:
                 self.assign(st.target, self.ev(st.value, scopes), scopes)
         elif isinstance(st, ast.AugAssign):
             cur = self.ev(_load(st.target), scopes)
-            self.assign(st.target, _BINOPS[type(st.op)](cur, self.ev(st.value, scopes)), scopes)
+            self.assign(st.target, _IBINOPS[type(st.op)](cur, self.ev(st.value, scopes)), scopes)   # in-place semantics (list += tuple extends)
         elif isinstance(st, ast.If):
             self.block(st.body if self.ev(st.test, scopes) else st.orelse, scopes)
         elif isinstance(st, ast.While):
